@@ -11,15 +11,171 @@ resuming mechanism it cannot express — the admission webhooks, the only other 
   (immediately, if it is already). The mark `{"what": "admit", "uid", "operation", "t", "inc", "allowed", "mem_before",
   "mem_after"}` (the object's `ResourceMemory` flags right before / after the request) is logged when it has been served.
 
+* handler RESULTS that JSON cannot write down (scenario action `["ok", value]`, where `value` may contain nodes
+  `{"$py": kind, …}`: see `pyvalue`): what a handler returns is arbitrary Python — a datetime, a set, bytes, a Decimal,
+  a tuple, a dict with non-string keys, a kopf view (`spec`, `meta`, …: a Mapping that is not a dict), a mappingproxy, a
+  self-referencing list, an object, a lock, a generator (the forgotten `list(…)` / `await`). Each call record gets
+  `result_shape` = what the framework's delivery of the result can depend on, measured on the returned value itself, with
+  no kopf code involved: is it None, a Mapping, does `copy.deepcopy` take it, does `json.dumps` take it as it is
+  (`json_raw`), and as it goes into the patch (a mapping's items merged into a dict, anything else as it is: `json_patch`).
+* the fake session becomes faithful for such payloads: the real HTTP client serialises `json=payload` with `json.dumps`
+  when the request is made, and the TypeError / ValueError comes out of `session.request(...)`; the shared fake
+  deep-copies the payload instead (`before_request` hook `_wire`, for every incarnation of every scenario run here).
+* `cycle["pcc_raised"]` = the type of the exception that left `process_changing_cause` (the shared observer keeps only
+  what left `process_resource_event`, and the error throttler swallows everything before that), `cycle["apply_raised"]`
+  likewise for `application.apply`.
+
 Selected per scenario with `"runner": "harness.props.sim_c14:run_scenario"` (see harness/sim/worker.py).
 """
 from __future__ import annotations
 
 import asyncio
+import collections
+import collections.abc
+import contextlib
 import copy
-from typing import Any
+import datetime
+import decimal
+import json
+import threading
+import types
+from typing import Any, Iterator
 
 from ..sim import observe, scenario, simloop
+
+
+class Opaque:
+    """An application object: copyable, nothing JSON knows."""
+
+    def __init__(self, x: Any = 1) -> None:
+        self.x = x
+
+    def __repr__(self) -> str:
+        return f"Opaque({self.x!r})"
+
+
+VIEWS = ("spec", "meta", "status", "body", "labels", "annotations")
+PY_KINDS = ("datetime", "date", "timedelta", "set", "frozenset", "tuple", "bytes", "decimal", "complex", "object",
+            "view", "userdict", "mappingproxy", "intkeys", "tuplekeys", "circular", "lock", "generator")
+
+
+def pyvalue(node: Any, kwargs: dict) -> Any:
+    """The scenario's (JSON) description of a handler's result → the Python value the handler returns."""
+    if isinstance(node, list):
+        return [pyvalue(x, kwargs) for x in node]
+    if not isinstance(node, dict):
+        return node
+    kind = node.get("$py")
+    if kind is None:
+        return {k: pyvalue(v, kwargs) for k, v in node.items()}
+    of = node.get("of")
+    if kind == "datetime":
+        return datetime.datetime(2020, 12, 31, 23, 59, 59, tzinfo=datetime.timezone.utc)
+    if kind == "date":
+        return datetime.date(2020, 12, 31)
+    if kind == "timedelta":
+        return datetime.timedelta(seconds=90)
+    if kind == "set":
+        return set(pyvalue(of if of is not None else ["a", "b"], kwargs))
+    if kind == "frozenset":
+        return frozenset(pyvalue(of if of is not None else ["a"], kwargs))
+    if kind == "tuple":
+        return tuple(pyvalue(of if of is not None else [1, 2], kwargs))
+    if kind == "bytes":
+        return str(node.get("s", "abc")).encode()
+    if kind == "decimal":
+        return decimal.Decimal(str(node.get("s", "1.50")))
+    if kind == "complex":
+        return complex(1, 2)
+    if kind == "object":
+        return Opaque(pyvalue(of, kwargs))
+    if kind == "view":                  # one of kopf's own views of the object, as handed to the handler
+        return kwargs[of or "spec"]
+    if kind == "userdict":
+        return collections.UserDict(pyvalue(of if of is not None else {"a": 1}, kwargs))
+    if kind == "mappingproxy":
+        return types.MappingProxyType(pyvalue(of if of is not None else {"a": 1}, kwargs))
+    if kind == "intkeys":
+        return {i: pyvalue(v, kwargs) for i, v in enumerate(of if of is not None else ["a", "b"])}
+    if kind == "tuplekeys":
+        return {(1, 2): pyvalue(of, kwargs)}
+    if kind == "circular":
+        out: list = [1]
+        out.append(out)
+        return out
+    if kind == "lock":
+        return threading.Lock()
+    if kind == "generator":
+        return (x for x in (of if of is not None else [1, 2]))
+    raise ValueError(f"unknown $py kind {kind!r}")
+
+
+def _takes(fn: Any, x: Any) -> bool:
+    try:
+        fn(x)
+        return True
+    except Exception:  # noqa: BLE001
+        return False
+
+
+def result_shape(x: Any) -> dict:
+    """What the delivery of a handler's result can depend on — measured on the value, no kopf code involved."""
+    mapping = isinstance(x, collections.abc.Mapping)
+
+    def as_patched(v: Any) -> Any:       # a mapping's items are merged into a dict of the patch; the rest goes in as it is
+        d: dict = {}
+        d.update(v)
+        return d
+    return {"none": x is None, "mapping": mapping, "copyable": _takes(copy.deepcopy, x), "json_raw": _takes(json.dumps, x),
+            "json_patch": _takes(lambda v: json.dumps(as_patched(v) if mapping else v), x), "type": type(x).__name__}
+
+
+class Observer14(observe.Observer):
+    async def _perform(self, action: Any, rec: dict, kwargs: dict) -> Any:
+        def decode(a: Any) -> Any:
+            if isinstance(a, list) and a and a[0] in ("sleep", "patch"):
+                return a[:2] + [decode(a[2])] if len(a) > 2 else a
+            if isinstance(a, list) and len(a) > 1 and a[0] == "ok":
+                value = pyvalue(a[1], kwargs)
+                rec["result_shape"] = result_shape(value)
+                rec["result_spec"] = a[1]
+                return ["ok", value]        # the shared performer returns `action[1]` as it is
+            return a
+        return await super()._perform(decode(action), rec, kwargs)
+
+
+@contextlib.contextmanager
+def installed14() -> Iterator[None]:
+    """On top of `observe.installed`: what left `process_changing_cause` / `application.apply` in each cycle."""
+    from kopf._core.actions import application
+    from kopf._core.reactor import processing
+    inner_pcc, inner_apply = processing.process_changing_cause, application.apply
+
+    async def process_changing_cause(**kw: Any) -> Any:
+        try:
+            return await inner_pcc(**kw)
+        except Exception as e:  # noqa: BLE001
+            cyc = observe._cycle.get()
+            if cyc is not None:
+                cyc["pcc_raised"] = type(e).__name__
+            raise
+
+    async def apply(**kw: Any) -> Any:
+        try:
+            return await inner_apply(**kw)
+        except Exception as e:  # noqa: BLE001
+            cyc = observe._cycle.get()
+            if cyc is not None:
+                cyc["apply_raised"] = type(e).__name__
+            raise
+
+    processing.process_changing_cause = process_changing_cause  # type: ignore[assignment]
+    application.apply = apply  # type: ignore[assignment]
+    try:
+        yield
+    finally:
+        processing.process_changing_cause = inner_pcc  # type: ignore[assignment]
+        application.apply = inner_apply  # type: ignore[assignment]
 
 
 class FakeWebhookServer:
@@ -40,9 +196,24 @@ class FakeWebhookServer:
 class Sim14(scenario.Sim):
     def __init__(self, sc: dict):
         super().__init__(sc)
+        # scripted handlers that can return what JSON cannot write down (the registry is rebuilt around them)
+        self.obs = Observer14(self)
+        self.registry = scenario.build_registry(sc, self.obs)
+        self.cluster.before_request.append(self._wire)
         self.webhook_servers: list[FakeWebhookServer] = []
         self.side_tasks: list[asyncio.Task] = []
         self._admit_n = 0
+
+    @staticmethod
+    def _wire(req: dict) -> None:
+        """`aiohttp` serialises `json=payload` when the request is made: TypeError / ValueError for what JSON cannot hold."""
+        if req.get("payload") is not None:
+            try:
+                json.dumps(req["payload"])
+            except Exception as e:  # noqa: BLE001
+                req["response"] = f"unserialisable: {type(e).__name__}"
+                req["payload"] = observe._jsonable(req["payload"])
+                raise
 
     def settings(self) -> Any:
         s = super().settings()
@@ -107,7 +278,7 @@ def run_scenario(sc: dict, wall_limit: float = 60.0) -> dict:
     async def main() -> dict:
         sim = Sim14(copy.deepcopy(sc))
         holder["sim"] = sim
-        with observe.installed(sim.obs):
+        with observe.installed(sim.obs), installed14():
             try:
                 return await sim.run()
             finally:
